@@ -13,6 +13,7 @@ import XV.Driver.Uri
 import XV.Driver.XInclude
 import XV.Driver.Ledger
 import XV.Driver.Dom
+import XV.Driver.XmlWf
 open XV.Driver
 
 def main (args : List String) : IO UInt32 := do
@@ -43,5 +44,8 @@ def main (args : List String) : IO UInt32 := do
   | ["dom"] => lineLoopS stdin stdout (XV.Model.Dom.init 0) (XV.Driver.Dom.handle 0); return 0
   | ["domfull"] => lineLoopS stdin stdout (XV.Model.Dom.init 0) (XV.Driver.Dom.handle 1); return 0
   | ["domgen"] => XV.Driver.Dom.loopFlush stdin stdout 2 (XV.Model.Dom.init 0); return 0
+  | ["xmlwf"] => lineLoop stdin stdout XV.Driver.XmlWf.handle; return 0
+  | ["xmlchar"] => for l in XV.Driver.XmlWf.dumpTables do stdout.putStrLn l
+                   return 0
   | ["utf8spec"] => lineLoop stdin stdout XV.Driver.Utf8.handleSpec; return 0
   | _ => IO.eprintln "usage: xvdriver <area>"; return 2
